@@ -75,15 +75,17 @@ def scen_convert(ch, params, out):
     # siblings: plain values, a float-string list sharing a literal with the target (for int atoms), and a key equal to the class name
     shared_literal = ATOMS[atom][0] if atom == "int" else "12"
     n_extra = ch.choose("extra_int_string_fields", params.get("extra_fields", [0, 5, 6, 14]))
-    s1 = {"mixed": 1, "plain": "some text", "num": 3, "empty": [], "nul": None, "target": val, "floats": [shared_literal, "2.5"], "Root": "77"}
+    # the JSON key of the inspected field: plain, or one that some framework has to rename (argument name of the generated __init__, keyword, digit first, hyphen)
+    TK = ch.choose("target_key", params.get("target_keys", ["target", "self", "class", "1st", "tar-get", "cls"]))
+    s1 = {"mixed": 1, "plain": "some text", "num": 3, "empty": [], "nul": None, TK: val, "floats": [shared_literal, "2.5"], "Root": "77"}
     s2 = {"mixed": [1.5], "plain": "other text", "num": 4, "empty": [], "nul": None, "floats": ["0.5", shared_literal], "Root": "78"}
     for e in range(n_extra):
         s1[f"extra{e}"] = str(100 + e)
         s2[f"extra{e}"] = str(200 + e)
     if not top_optional:
-        s2["target"] = build(inner, ATOMS[atom][::-1])
+        s2[TK] = build(inner, ATOMS[atom][::-1])
     elif null_form == "null":
-        s2["target"] = None
+        s2[TK] = None
     # a second class with a field of the same name and path but another pseudo-type (state keyed by the field path would leak)
     other_T, other_str = (dt.FloatString, "1.5") if atom != "float" else (dt.IntString, "12")
     child_val = build(inner, (other_str, other_str))
@@ -95,10 +97,10 @@ def scen_convert(ch, params, out):
     reg_s.add(replace_types=(dt.IntString,), cls=dt.FloatString)
     reg_s.add(cls=dt.BooleanString)
     register_datetime_classes(reg_s)
-    out.info = {"path": "".join(path) + "S", "atom": atom, "framework": fw, "converters": conv, "optional_by": null_form}
-    ctx = lambda: f"path={''.join(path)}.S atom={atom} {fw} converters={conv} optional_by={null_form}"
+    out.info = {"path": "".join(path) + "S", "atom": atom, "framework": fw, "target_key": TK, "converters": conv, "optional_by": null_form}
+    ctx = lambda: f"path={''.join(path)}.S key={TK!r} atom={atom} {fw} converters={conv} optional_by={null_form}"
     try:
-        gen, reg, _ = pipeline.infer({"Root": copy.deepcopy(samples)}, str_registry=reg_s, dkf=["target"] if inner[:1] == ("D",) else None,
+        gen, reg, _ = pipeline.infer({"Root": copy.deepcopy(samples)}, str_registry=reg_s, dkf=[TK] if inner[:1] == ("D",) else None,
                                      dkr=[r"k\d"] if "D" in inner else None, merge=[__import__("json_to_models.registry", fromlist=["x"]).ModelFieldsEquals()])
     except Exception as e:
         out.fail("inference_raises", f"{type(e).__name__}: {e} ({ctx()})", f"inference_raises:{type(e).__name__}")
@@ -115,9 +117,11 @@ def scen_convert(ch, params, out):
         return
     try:
         root = ld.classes["Root"]
-        ann = pipeline.resolve_annotation(pipeline.own_annotations(root)["target"], ld, root)
         table = pipeline.field_table(ld, root, fw)
         name_of = {(rec["key"] if rec["key"] is not None else f): f for f, rec in table.items()}      # JSON key -> python field name
+        if not out.check(TK in name_of, "target_field_missing", lambda: f"no field carries the key {TK!r}: {sorted(name_of)} ({ctx()})\n{text}", "target_field_missing"):
+            return
+        ann = pipeline.resolve_annotation(pipeline.own_annotations(root)[name_of[TK]], ld, root)
         for si, s in enumerate(samples):
             try:
                 obj = root(**{name_of.get(k, k): v for k, v in copy.deepcopy(s).items()})
@@ -127,9 +131,9 @@ def scen_convert(ch, params, out):
                          "construction_raises:attrs_field_converter_on_bool_or_date" if known_attrs else f"construction_raises:{type(e).__name__}")
                 continue
             out.checked += 1
-            got = getattr(obj, "target")
-            if "target" in s:
-                orig = s["target"]
+            got = getattr(obj, name_of[TK])
+            if TK in s:
+                orig = s[TK]
             else:       # key absent: the field takes its default (empty list / dict for optional containers, else None)
                 orig = [] if inner[:1] == ("L",) else ({} if inner[:1] == ("D",) else None)
             if si == 0 and "Child" in ld.classes:
@@ -186,7 +190,7 @@ META = {
     "explanation": "every nesting path over {Optional, List, Dict} within the depth bound x pseudo-type atom x framework x converters bit is generated, loaded, constructed from its own samples and inspected",
     "functions_encoded": ["get_string_field_paths", "convert_strings / post_init_converters / _process_string_field_value", "GenericModelCodeGenerator.decorators / string_field_paths",
                           "AttrsModelCodeGenerator.field_data / convert_strings_kwargs", "DataclassModelCodeGenerator.field_data / convert_strings_kwargs"],
-    "symbolic_on_path": ["nesting path", "pseudo-type atom", "framework", "converters bit", "how a top-level Optional is realised (missing key / null)"],
+    "symbolic_on_path": ["nesting path", "JSON key of the inspected field (plain / self / cls / class / digit-first / hyphenated)", "pseudo-type atom", "framework", "converters bit", "how a top-level Optional is realised (missing key / null)"],
     "bounds": {"quick": "paths of depth <=2 x 5 atoms and depth 3 x {int, time}; 2 frameworks x converters on/off", "thorough": "depth <=3 x 6 atoms"},
     "outside_claim": ["paths deeper than 3", "unions inside the path (documented as not convertible)"],
     "assumptions": ["Dict nestings are obtained with dict_keys_fields / a dict_keys_regex on k1,k2", "sibling fields: a union-typed field first, a plain string, an int, an empty list, a null, a List[FloatString] sharing a literal with the target, a key named like the class, 0/5/6/14 extra IntString fields"],
